@@ -212,6 +212,29 @@ def skip_cases(tier):
             yield (prog, "default", k)
 
 
+def nonpass_fault_cases(tier):
+    """one step deviates (fails / raises / is pending / has no definition / skips its scenario), then every hook
+    invocation of THAT run raises in turn: in particular the after_step hook of the very step that failed, and the
+    after_scenario / after_tag hooks of a scenario that already failed (two faults meeting on one element)"""
+    quick = tier == "quick"
+    for si, shp in enumerate(shapes()):
+        if si % (6 if quick else 2):
+            continue
+        outs = ("fail", "error", "pending", "undefined") if quick else ("fail", "error", "pending", "undefined", "skip",
+                                                                      "failS", "pendingS", "xfail")
+        for nd, pr in P.deviations((shp,), 1, outcomes=outs):
+            if not nd:
+                continue
+            prog = (pr[0], SECOND)
+            for cfgname in (("default",) if quick else ("default", "stop")):
+                n = runcases.hook_count(prog, VARIATIONS[cfgname])
+                yield (prog, cfgname, None)
+                for k in range(n):
+                    yield (prog, cfgname, {k: "assert" if k % 2 else "exc"})
+                    if not quick:
+                        yield (prog, cfgname, {k: "exc" if k % 2 else "assert"})
+
+
 def pair_cases(tier):
     for si, shp in enumerate(shapes()):
         prog = (shp, SECOND)
@@ -233,6 +256,8 @@ def run(ctx):
               name="a raising cleanup of an earlier element, then a single hook fault at every invocation")
     ctx.sweep(skip_case, skip_cases(ctx.tier), chunk=32,
               name="a hook excludes its own element at run time (skip()) at every hook invocation")
+    ctx.sweep(run_case, nonpass_fault_cases(ctx.tier), chunk=32,
+              name="one non-passing step, then a single hook fault at every invocation")
     if not ctx.quick:
         ctx.sweep(run_case, pair_cases(ctx.tier), chunk=64, name="pairs of hook faults")
     sites = set()
